@@ -71,7 +71,7 @@ def write_makefile(variant_flags=""):
         # render depends on core; link order matters
         link = " ".join(f"-llf_{l}" for l in (["render"] if "render" in libs else []) + ["core"])
         lines.append(f"bin/{name}: {h} {deps}")
-        lines.append(f"\t$(CXX) $(FLAGS) $(INC) -MMD -MP -MF obj/h_{name}.d $< -o $@ -L. {link} -lpthread")
+        lines.append(f"\t$(CXX) $(FLAGS) $(INC) -MMD -MP -MF obj/h_{name}.d $< -o $@ -L. {link} -lpthread -lpng")
     lines.append("-include obj/*.d")
     mk = "\n".join(lines) + "\n"
     path = os.path.join(BUILD, "Makefile")
